@@ -66,6 +66,7 @@ theorem inv_createRow (s : St) (w i t : Nat) (h : Inv s) : Inv (createRow s w i 
 theorem inv_step (s : St) (op : Op) (h : Inv s) : Inv (step s op).1 := by
   cases op with
   | create w i => exact inv_createRow s w i 1 h
+  | createMetrics w i => exact inv_createRow s w i 2 h
   | createTyped t => exact inv_createRow s 1 1 t h
   | edit k w i =>
     by_cases hc : (hasRow s k && accepted w i 1) = true
@@ -101,7 +102,7 @@ def AllSched (s : St) : Prop := ∀ r ∈ s.rows, schedulable r = true
 theorem accepted_schedulable {w i t : Nat} (h : accepted w i t = true) :
     schedulable { idx := k, window := w, interval := i, type := t } = true := by
   simp only [accepted, Bool.and_eq_true] at h
-  simp [schedulable, h.1.1, h.2]
+  simp [schedulable, h.1.1.1, h.1.2]
 
 theorem allSched_createRow (s : St) (w i t : Nat) (h : AllSched s) : AllSched (createRow s w i t).1 := by
   unfold createRow
@@ -116,6 +117,7 @@ theorem allSched_createRow (s : St) (w i t : Nat) (h : AllSched s) : AllSched (c
 theorem allSched_step (s : St) (op : Op) (hl : isLegacy op = false) (h : AllSched s) : AllSched (step s op).1 := by
   cases op with
   | create w i => exact allSched_createRow s w i 1 h
+  | createMetrics w i => exact allSched_createRow s w i 2 h
   | createTyped t => exact allSched_createRow s 1 1 t h
   | edit k w i =>
     by_cases hc : (hasRow s k && accepted w i 1) = true
